@@ -192,6 +192,7 @@ pub fn check_a(prop: &str, tier: Tier, selftest: Value) -> i32 {
             "distinct_digests_interleaved": s.stats.digests_interleaved.len(),
             "thread_switches": s.stats.switches, "signals_delivered": s.stats.signals, "stale_reads_taken": s.stats.stale,
             "max_decisions_per_execution": s.stats.max_decisions,
+            "private_location_reduction": if s.shared_locations > 0 || s.stats.skipped > 0 { json!({"operations_without_scheduling_point": s.stats.skipped, "shared_heap_locations_learned": s.shared_locations, "restarts": s.reduction_restarts, "verified_in_every_execution": true}) } else { json!(null) },
             "completed": !s.stats.capped, "wall_s": s.wall_s,
             "violating_executions": s.violating_executions,
             "violations": s.violations.iter().map(|v| v.message.clone()).collect::<Vec<_>>(),
@@ -304,8 +305,8 @@ pub fn check_a(prop: &str, tier: Tier, selftest: Value) -> i32 {
         "wall_s": start.elapsed().as_secs_f64(),
         "violations": new_violations,
     });
-    let _ = std::fs::create_dir_all("/verif/evidence");
-    let path = format!("/verif/evidence/{}.json", prop);
+    let _ = std::fs::create_dir_all(crate::explore::evidence_dir());
+    let path = format!("{}/{}.json", crate::explore::evidence_dir(), prop);
     if let Err(e) = std::fs::write(&path, serde_json::to_string_pretty(&ev).unwrap()) {
         eprintln!("MACHINERY FAILURE: cannot write evidence {}: {}", path, e);
         return 2;
